@@ -218,6 +218,69 @@ def run_cstruct(ctx):
                 ctx.mismatch("cdec-cut", dict(inp, cut=cut), a[3], impl_cut)
 
 
+def run_structlists(ctx):
+    """Lists whose items are C structs, under both alignment modes: the list codecs hand `align` down to the
+    items.  Expected bytes = length header ++ the Lean struct encoding of every item (`cenc`)."""
+    import zigpy_zboss.types.basic as zb
+    import zigpy.types as zt
+    r = ctx.rng
+    lines, metas = [], []
+    for _ in range(ctx.scale(40, 1200)):
+        ty, cls = rand_struct(r, r.choice([0, 1, 1, 2]))
+        n = r.choice([0, 1, 2, 3, 4])
+        _counter[0] += 1
+        kind = r.choice(["lv", "fixed", "greedy"])
+        if kind == "lv":
+            L = type("VList%d" % _counter[0], (zb.LVList,), {}, item_type=cls, length_type=zt.uint8_t)
+        elif kind == "fixed":
+            L = type("VList%d" % _counter[0], (zb.FixedList,), {}, item_type=cls, length=n)
+        else:
+            L = type("VList%d" % _counter[0], (zb.CompleteList,), {}, item_type=cls)
+        for al in (False, True):
+            items = [rand_cval(r, cls) for _ in range(n)]
+            val = L([v for _, v in items])
+            raw = val.serialize(align=al)
+            for vs, _ in items:
+                lines.append("cenc %d %s %s" % (al, ty, vs))
+            metas.append((ty, cls, kind, L, al, items, val, raw))
+    ans = ctx.driver.ask(lines) if ctx.driver else None
+    pos = 0
+    for ty, cls, kind, L, al, items, val, raw in metas:
+        inp = dict(list=kind, item=ty, align=al, values=[vs for vs, _ in items])
+        isz = cls.get_size(align=al)
+        ctx.case((kind, ty, al, raw), nontrivial=len(items) > 0 and cls.get_size(align=True) != cls.get_size(align=False),
+                 sample=dict(list=kind, item=ty, align=al, n=len(items), bytes=hx(raw)[:50]))
+        ctx.count("structlist:%s,align=%d" % (kind, al))
+        if ans:
+            parts = ans[pos:pos + len(items)]
+            pos += len(items)
+            if all(x.startswith("ok ") for x in parts):
+                want = (bytes([len(items)]) if kind == "lv" else b"") + b"".join(
+                    bytes.fromhex(x[3:]) if x[3:] != "-" else b"" for x in parts)
+                if want != raw:
+                    ctx.mismatch("structlist-enc", inp, hx(want), hx(raw))
+        suffix = b"" if kind == "greedy" else bytes(r.getrandbits(8) for _ in range(r.choice([0, 1, 3])))
+        try:
+            back, rest = L.deserialize(raw + suffix, align=al)
+            if list(back) != list(val) or rest != suffix:
+                ctx.counterexample("structlist-not-inverse", inp, hx(raw), "%r rest=%s" % (list(back), hx(rest)),
+                                   "list of structs: decode(encode(v, align)+suffix, align) != (v, suffix)")
+        except ValueError as ex:
+            ctx.counterexample("structlist-not-inverse", inp, hx(raw), "ValueError: %s" % ex,
+                               "list of structs rejects its own encoding")
+        hdr = 1 if kind == "lv" else 0
+        for cut in range(len(raw)):
+            if kind == "greedy" and isz and (cut - hdr) % isz == 0:
+                continue          # a shorter list of whole items: a valid value of a greedy list
+            try:
+                b2, r2 = L.deserialize(raw[:cut], align=al)
+                ctx.counterexample("structlist-truncation-accepted", dict(inp, cut=cut), "ValueError",
+                                   "%r rest=%s" % (list(b2), hx(r2)), "truncated list of structs accepted")
+                break
+            except ValueError:
+                pass
+
+
 def run_nvram(ctx):
     import zigpy.types as zt
     from zigpy_zboss.types import nvids
@@ -276,6 +339,7 @@ def run(ctx):
                 "of 0..5 records in the read layout; non-trivial as noted per case; distinct by bytes")
     run_wire(ctx)
     run_cstruct(ctx)
+    run_structlists(ctx)
     run_nvram(ctx)
 
 
